@@ -102,24 +102,25 @@ ClauseMis(pre, o, cl) ==
       nOuter == Cardinality({i \in pwIdx : i < firstS})
       pw == SelectSeq(cl, LAMBDA c : c[1] \in {1, 2})
       onOuter(sl) == sl \in (Range(pre.act[o.cm][o.cf]) \cup Range(pre.sat[o.cm][o.cf]))
-      onInner(sl) == o.nargs # <<>> /\ sl \in (Range(pre.act[o.nm][o.nf]) \cup Range(pre.sat[o.nm][o.nf]))
+      onInner(sl) == o.nf # 0 /\ sl \in (Range(pre.act[o.nm][o.nf]) \cup Range(pre.sat[o.nm][o.nf]))
       badres == {i \in 1..Len(pw) :
                    LET c == pw[i] IN
                    IF ~(c[2] \in Slots) \/ ~pre.exp[c[2]].alive THEN TRUE
-                   ELSE LET x == pre.exp[c[2]]  args == IF i <= nOuter \/ o.nargs = <<>> THEN o.cargs ELSE o.nargs IN
+                   ELSE LET x == pre.exp[c[2]]  args == IF i <= nOuter \/ o.nf = 0 THEN o.cargs ELSE o.nargs IN
                         IF c[1] = 1 THEN ~(c[3] \in 1..Len(x.pt)) \/ c[4] # B2I(Accepts(x.pt[c[3]], args[c[3]]))
-                        ELSE ~(c[3] \in 1..Len(x.wt)) \/ c[4] # B2I(Accepts(x.wt[c[3]], args[1]))}
+                        ELSE ~(c[3] \in 1..Len(x.wt)) \/ c[4] # B2I(Accepts(x.wt[c[3]], WArg(args)))}
       badord == {i \in 1..Len(pw) :
                    LET c == pw[i] IN
                    c[1] = 2 /\ c[2] \in Slots /\
-                   IF i = 1 THEN TRUE
+                   IF c[3] = 1 /\ Len(pre.exp[c[2]].pt) = 0 THEN FALSE      \* no parameter: the first condition follows nothing
+                   ELSE IF i = 1 THEN TRUE
                    ELSE LET p == pw[i - 1] IN
                         IF c[3] = 1 THEN ~(p[1] = 1 /\ p[2] = c[2] /\ p[3] = Len(pre.exp[c[2]].pt) /\ p[4] = 1)
                         ELSE ~(p[1] = 2 /\ p[2] = c[2] /\ p[3] = c[3] - 1 /\ p[4] = 1)}
       foreign == {i \in 1..Len(pw) : pw[i][2] \in Slots /\ pre.exp[pw[i][2]].alive /\
                                      ~(IF i <= nOuter THEN onOuter(pw[i][2]) ELSE onInner(pw[i][2]))}
   IN  Chk(sr = o.sr, "actions", "C08 C01 C07 C02", o.sr, sr)
-      \o (IF o.cargs = <<>> THEN Chk(pw = <<>>, "clauses-outside-call", "C08", <<>>, pw)
+      \o (IF o.cf = 0 THEN Chk(pw = <<>>, "clauses-outside-call", "C08", <<>>, pw)
           ELSE Chk(badres = {}, "clause-result", "C08 C10", "P/W results = Accepts(term, arg)", pw)
             \o Chk(badord = {}, "with-order", "C08", "WITH in declaration order, stop at first failure", pw)
             \o Chk(foreign = {}, "foreign-clause", "C02 C08", "only expectations of the called object+function are evaluated", pw))
